@@ -444,11 +444,26 @@ def gen_barrier_hang(rng, sid):
     return s
 
 
+def gen_zero_after_close(rng, sid):
+    """witness of the defect fixed in /repo (fix: zero-length operation scheduled after dispatch_io_close reported 0)"""
+    s = Scn(sid, 256)
+    s.kind = "pipe_r"
+    s.rbase = 0
+    s.add("fd pipe_r 0 0")
+    s.add("chan")
+    s.close(rng.chance(1, 3))
+    s.op(False, 0)
+    s.op(True, 0, frags=[], woff=0)
+    s.op(False, rng.range(1, 10))
+    s.add("end")
+    return s
+
+
 def scenarios(ctx):
     rng = ctx.rng
     n = 100 if ctx.tier == "quick" else 1200
     out = [gen_ebadf(rng, 100000 + k) for k in range(6)] + [gen_heldleave(rng, 100100 + k) for k in range(3)] + \
-          [gen_barrier_hang(rng, 100200 + k) for k in range(4)]
+          [gen_barrier_hang(rng, 100200 + k) for k in range(4)] + [gen_zero_after_close(rng, 100300 + k) for k in range(4)]
     for i in range(n):
         r = i % 10
         big = (i % 37 == 5)
@@ -679,7 +694,7 @@ def coq_case(s, o, ev):
 def model_check(cases):
     """cases: list of (cfg, op, rs, ob, stop, close+fderr). returns list of verdicts (1 reproduced, 0 not reproducible,
     -1 search cut off by its node budget, None evaluation failed / timed out), raw"""
-    B = 30
+    B = 20
     parts = [cases[k:k + B] for k in range(0, len(cases), B)]
 
     def one(idx_part):
@@ -697,7 +712,7 @@ def model_check(cases):
         return v, ""
 
     res, raw_all = [], ""
-    with concurrent.futures.ThreadPoolExecutor(max_workers=8) as ex:
+    with concurrent.futures.ThreadPoolExecutor(max_workers=4) as ex:
         for v, raw in ex.map(one, list(enumerate(parts))):
             res += v
             raw_all += raw
